@@ -44,6 +44,9 @@ def classify(n):
     return None
 
 
+LABELS = {"STORE", "ROLLUP", "KEEP", "DISCARD", "REBIND", "DISCARD?"}
+
+
 def pair_ok(events, erase=False):
     """None if the path respects the pairing, else a reason"""
     stored = False
@@ -80,7 +83,31 @@ def run(ctx, report):
                            "row grouping, start < end for arbitrary streams"]
 
 
+def _helper_resolver(ctx, cls_path=SCC, cls_name="SCCReader", skip=("_roll_up",)):
+    """statement-level self._helper() calls of the reader are spliced into the caller's paths
+    (except _roll_up, which is judged on its own and summarised as ROLLUP)"""
+    from ..core.astutil import resolve_callee
+    cls = ctx.index.get_class(cls_path, cls_name)
+
+    def resolver(call):
+        cn = call_name(call) or ""
+        if not cn.startswith("self._") or cn.split(".")[-1] in skip:
+            return None
+        m = cls.find_method(cn.split(".")[-1])
+        if m is None:
+            return None
+        if not any(classify(x) for x in walk_no_nested(m.node)):
+            return None
+        return m
+    return resolver
+
+
 def pairing(ctx, report):
+    with PR.inlining(_helper_resolver(ctx)):
+        _pairing(ctx, report)
+
+
+def _pairing(ctx, report):
     idx = ctx.index
     n_paths = 0
     # _roll_up and the paint branch of the flush
@@ -113,7 +140,7 @@ def pairing(ctx, report):
         paths = PR.paths_of_block(node.body, classify)
         n_paths += len(paths)
         bad = [{"events": PR.flat(ev), "why": pair_ok(ev, erase)} for ev, end in paths if pair_ok(ev, erase)]
-        if any(classify(x) for st in node.body for x in walk_no_nested(st)):
+        if any(e in LABELS for ev, _ in paths for e in PR.flat(ev)):
             seen += 1
             report.check(not bad, "R-PAIR", (tc, node), f"branch {'/'.join(names)}: buffer stored before it is discarded"
                          + (" (erase command: discards on purpose)" if erase else ""),
@@ -124,10 +151,19 @@ def pairing(ctx, report):
     report.count("paths_checked", n_paths)
     # who else assigns self.buffer?
     cls = idx.get_class(SCC, "SCCReader")
+    res = _helper_resolver(ctx)
+    inlined = set()
+    for q in ("_roll_up", "_flush_implicit_buffers", "_translate_command"):
+        m0 = cls.find_method(q)
+        for c in walk_no_nested(m0.node):
+            if isinstance(c, ast.Call) and res(c) is not None:
+                inlined.add(res(c).name)
     others = []
     for name, m in cls.methods.items():
         if name in ("_roll_up", "_flush_implicit_buffers", "_translate_command", "__init__", "_reset"):
             continue
+        if name in inlined:
+            continue       # judged as part of every caller's paths
         for n in walk_no_nested(m.node):
             if classify(n) in ("DISCARD", "DISCARD?", "REBIND"):
                 others.append(f"{name}:{n.lineno}")
